@@ -28,41 +28,52 @@ def _template_names(node: ast.AST) -> tuple[str | None, str | None]:
 
 
 def rule_extglob_dispatch(ctx: Ctx, rule: str) -> None:
-    ctx.text(rule, 'in WcParse.parse_extend the arm taken for list type T formats a template whose repeat bounds are '
-                   'the documented ones for T (? 0..1, * 0..inf, + 1..inf, @ exactly one, ! negation) in both the '
-                   'capture and the plain variant; the set of dispatched types equals EXT_TYPES')
+    ctx.text(rule, 'in WcParse.parse_extend (per-site slices of every `<template>.format(<joined alternatives>)` call, argument values): '
+                   'for list type T the template that is formatted has the documented repeat bounds for T (? 0..1, * 0..inf, + '
+                   '1..inf, @ exactly one, ! negation) in the capture and in the plain variant; its content slot receives the joined '
+                   'alternatives of this group; the set of dispatched types equals EXT_TYPES -- however the dispatch is written (if '
+                   'chain, table lookup)')
+    from .common import site_events
+    from ..symeval import focus, _tag
     repo = ctx.repo
     fi = repo.func('_wcparse', 'WcParse.parse_extend')
-    env = repo.mod('_wcparse').env
     ext_types = repo.const('_wcparse', 'EXT_TYPES')
-    arms: dict[str, ast.If] = {}
-    for n in walk_no_nested(fi.node):
-        if isinstance(n, ast.If) and isinstance(n.test, ast.Compare) and len(n.test.ops) == 1 and \
-                isinstance(n.test.ops[0], ast.Eq) and isinstance(n.test.left, ast.Name) and \
-                n.test.left.id == 'list_type' and isinstance(n.test.comparators[0], ast.Constant):
-            arms[n.test.comparators[0].value] = n
-    ctx.floor(rule, 'dispatch arms', len(arms), 5)
-    site0 = repo.loc('_wcparse', fi.node)
-    ctx.ob(rule, '_wcparse:WcParse.parse_extend/dispatched-types', set(arms) == set(ext_types), site0,
-           f'arms for {sorted(ext_types)}', f'{sorted(arms)}',
-           witness="a list type in EXT_TYPES without an arm silently drops the group")
     close = repo.const('_wcparse', '_EXCLA_GROUP_CLOSE')
-    for t, arm in sorted(arms.items()):
-        fmt = [c for st in arm.body for c in [st, *walk_no_nested(st)]
-               if isinstance(c, ast.Call) and isinstance(c.func, ast.Attribute) and c.func.attr == 'format']
-        key = f'_wcparse:WcParse.parse_extend/arm[{t}]'
-        site = repo.loc('_wcparse', arm)
-        if not fmt:
-            ctx.ob(rule, key, False, site, 'formats a group template', 'no template formatted in this arm')
-            continue
-        capname, plainname = _template_names(fmt[0].func.value)
-        if plainname is None or not isinstance(env.get(plainname), str) or \
-                (capname is not None and not isinstance(env.get(capname), str)):
-            raise AnalysisError(f'parse_extend arm {t!r}: template selection {norm_src(fmt[0].func.value)} not understood')
-        for which, name in (('plain', plainname), ('capture', capname)):
-            if name is None:
+    site0 = repo.loc('_wcparse', fi.node)
+    sites = site_events(repo, '_wcparse', 'WcParse.parse_extend', lambda c: isinstance(c.func, ast.Attribute) and c.func.attr == 'format')
+    seen: dict[tuple[str, bool], set[str]] = {}
+    content: dict[str, set[str]] = {}
+    where: dict[str, ast.AST] = {}
+    for c0, hits in sites:
+        for p, e in hits:
+            focus(p)
+            if not e[1].endswith('.format') or not e[2] or not _tag(e[2][0]).startswith("''.join("):
                 continue
-            tmpl = env[name]
+            try:
+                tmpl = ast.literal_eval(e[1][:-len('.format')])
+            except (ValueError, SyntaxError):
+                continue
+            ts = [ast.literal_eval(k[len('c == '):]) for k, v in p.decisions.items() if v and k.startswith('c == ')]
+            cap = p.decisions.get('self.capture')
+            if len(ts) != 1 or cap is None or not isinstance(tmpl, str):
+                raise AnalysisError(f'parse_extend: a group template is formatted without a decided list type / capture mode (types {ts}, capture {cap})')
+            seen.setdefault((ts[0], cap), set()).add(tmpl)
+            content.setdefault(ts[0], set()).add(_tag(e[2][0]))
+            where.setdefault(ts[0], c0)
+    types = {t for t, _c in seen}
+    ctx.floor(rule, 'dispatch arms', len(types), 3)
+    ctx.ob(rule, '_wcparse:WcParse.parse_extend/dispatched-types', types == set(ext_types), site0,
+           f'group templates formatted for {sorted(ext_types)}', f'{sorted(types)}',
+           witness="a list type in EXT_TYPES without an arm silently drops the group")
+    for t in sorted(types):
+        key = f'_wcparse:WcParse.parse_extend/arm[{t}]'
+        site = repo.loc('_wcparse', where[t])
+        for cap, which in ((False, 'plain'), (True, 'capture')):
+            tm = seen.get((t, cap), set())
+            if len(tm) != 1:
+                ctx.ob(rule, f'{key}/{which}', False, site, 'one template per list type and capture mode', f'{sorted(tm)}')
+                continue
+            tmpl = next(iter(tm))
             try:
                 if t == '!':
                     text = tmpl.format(rx.SLOT0) + rx.SLOT1 + close.format(rx.SLOT2)
@@ -74,13 +85,13 @@ def rule_extglob_dispatch(ctx: Ctx, rule: str) -> None:
                 ok, w, _ = rx.equivalent(node, rx.parse(ref).node)
             except (rx.RxParseError, IndexError, KeyError) as e:
                 ok, w = False, f'not a well-formed template: {e}'
-            ctx.ob(rule, f'{key}/{which}', ok, site, f'{name} ≡ {EXT_DOC.get(t, "negation template")}',
-                   f'{name} = {tmpl!r}' + ('' if ok else f' differs on {w}'),
+            ctx.ob(rule, f'{key}/{which}', ok, site, f'template ≡ {EXT_DOC.get(t, "negation template")}',
+                   f'{tmpl!r}' + ('' if ok else f' differs on {w}'),
                    witness="swapping the `?` and `@` arms makes `?(a)b` reject `b`")
-        # the formatted content must be the joined alternatives of this group
-        arg = fmt[0].args[0] if fmt[0].args else None
-        ok_arg = arg is not None and resolved_src(fi.node, arg).replace('"', "'") == "''.join(extended)"
-        ctx.ob(rule, f'{key}/content', ok_arg, site, "content slot = ''.join(extended)", norm_src(arg) if arg else 'none')
+            if cap and '(?#)' not in tmpl:
+                ctx.ob(rule, f'{key}/capture-marker', False, site, 'the capture variant carries the (?#) marker', repr(tmpl))
+        cs = content.get(t, set())
+        ctx.ob(rule, f'{key}/content', len(cs) == 1, site, "content slot = ''.join(<alternatives of this group>)", str(sorted(cs))[:120])
 
 
 PATTERN_SOURCES = {'include', 'exclude', 'npatterns', '_include', '_exclude'}
